@@ -65,6 +65,9 @@ type c12Scenario struct {
 	editKind, editIdx                    int
 	resps2                               []c12Resp
 	huge                                 bool // quota: the input count crosses 65535 -> 65536 during Fund
+	requote                              int  // 0 no, 1 AddQuote, 2 UnmarshalJSON between the two Fund calls
+	stdSat2, stdBytes2                   int
+	dataSat2, dataBytes2                 int
 	outs                                 []c12Out
 	resps                                []c12Resp
 	seedBytes                            []byte
@@ -87,6 +90,12 @@ func (s *c12Scenario) build() (*bt.Tx, *bt.FeeQuote) {
 			// already signed: 107-, 106- and 105-byte unlocking scripts (72/71/70-byte signatures)
 			n := 74 - s.priorForm[i]
 			us := append([]byte{byte(n)}, make([]byte, n)...)
+			us = append(append(us, 0x21), make([]byte, 33)...)
+			in.UnlockingScript = scriptPtr(us)
+		case 5:
+			// signed, with an extra data push in front: the script length needs a 3-byte prefix (253+ bytes)
+			us := append([]byte{0x4c, 150}, make([]byte, 150)...)
+			us = append(append(us, 0x48), make([]byte, 72)...)
 			us = append(append(us, 0x21), make([]byte, 33)...)
 			in.UnlockingScript = scriptPtr(us)
 		}
@@ -152,7 +161,7 @@ func genC12(c *kernel.RunCtx) *c12Scenario {
 			v %= 50
 		}
 		s.priorVals = append(s.priorVals, v)
-		s.priorForm = append(s.priorForm, c.Pick(4, 2, 2, 2, 1))
+		s.priorForm = append(s.priorForm, c.Pick(4, 2, 2, 2, 1, 1))
 		c.End()
 	}
 	s.transit = c.Bool(1, 5)
@@ -210,6 +219,8 @@ func genC12(c *kernel.RunCtx) *c12Scenario {
 	c.Begin("second-fund")
 	s.refund = c.Bool(1, 3) && !s.huge
 	s.editKind, s.editIdx = c.Choose(3), c.Choose(1000)
+	s.requote = c.Pick(2, 1, 1)
+	s.stdSat2, s.stdBytes2, s.dataSat2, s.dataBytes2 = c.Range(0, 2000), c.Range(1, 1000), c.Range(0, 2000), c.Range(1, 1000)
 	for i, n := 0, 1+c.Choose(3); i < n; i++ {
 		s.resps2 = append(s.resps2, c12Resp{kind: c.Pick(4, 4, 2, 1, 3), n: 1 + c.Choose(3), aux: c.U64n(1 << 16)})
 	}
@@ -241,6 +252,7 @@ type c12Supplier struct {
 	problem string
 	utxoN   int
 	maxCall int
+	rates   [4]int // std sat/bytes, data sat/bytes in force for this Fund call
 }
 
 // modelDeficit is the reference definition: max(0, outputs + estimated fee - inputs).
@@ -273,8 +285,8 @@ func (p *c12Supplier) modelDeficit() (uint64, error) {
 	}
 	enc, _ := ref.Encode(false, nil)
 	total := uint64(len(enc))
-	s := p.s
-	fees := struct{ TotalFeePaid uint64 }{(total-data)*uint64(s.stdSat)/uint64(s.stdBytes) + data*uint64(s.dataSat)/uint64(s.dataBytes)}
+	r := p.rates
+	fees := struct{ TotalFeePaid uint64 }{(total-data)*uint64(r[0])/uint64(r[1]) + data*uint64(r[2])/uint64(r[3])}
 	var in, out uint64
 	for _, i := range p.model.Inputs {
 		in += i.PreviousTxSatoshis
@@ -443,12 +455,30 @@ func (w *c12World) Run(c *kernel.RunCtx) {
 func (w *c12World) one(c *kernel.RunCtx, s *c12Scenario, resps []c12Resp, fname string) {
 	tx, fq := s.build()
 	model, _ := s.build()
-	w.fundPhase(c, s, tx, model, fq, resps, fname)
+	rates := [4]int{s.stdSat, s.stdBytes, s.dataSat, s.dataBytes}
+	w.fundPhase(c, s, tx, model, fq, resps, fname, rates)
 	if c.Failed() || !s.refund {
 		return
 	}
 	// second phase on the SAME objects: an in-place edit that keeps every count, then Fund again
 	c.Count("probe.refund_after_inplace_edit", 1)
+	if s.requote > 0 {
+		// the long-lived quote receives new rates between the two calls, by one of its update routes
+		rates = [4]int{s.stdSat2, s.stdBytes2, s.dataSat2, s.dataBytes2}
+		std := &bt.Fee{FeeType: bt.FeeTypeStandard, MiningFee: bt.FeeUnit{Satoshis: rates[0], Bytes: rates[1]}, RelayFee: bt.FeeUnit{Satoshis: rates[0], Bytes: rates[1]}}
+		dat := &bt.Fee{FeeType: bt.FeeTypeData, MiningFee: bt.FeeUnit{Satoshis: rates[2], Bytes: rates[3]}, RelayFee: bt.FeeUnit{Satoshis: rates[2], Bytes: rates[3]}}
+		switch s.requote {
+		case 1:
+			fq.AddQuote(bt.FeeTypeStandard, std).AddQuote(bt.FeeTypeData, dat)
+		default:
+			doc := fmt.Sprintf(`{"standard":{"miningFee":{"satoshis":%d,"bytes":%d},"relayFee":{"satoshis":%d,"bytes":%d}},"data":{"miningFee":{"satoshis":%d,"bytes":%d},"relayFee":{"satoshis":%d,"bytes":%d}}}`,
+				rates[0], rates[1], rates[0], rates[1], rates[2], rates[3], rates[2], rates[3])
+			if err := fq.UnmarshalJSON([]byte(doc)); err != nil {
+				panic("harness: quote document rejected: " + err.Error())
+			}
+		}
+		c.Count("probe.quote_updated_between_funds", 1)
+	}
 	for _, t := range []*bt.Tx{tx, model} {
 		switch {
 		case s.editKind == 0 && len(t.Outputs) > 0:
@@ -460,14 +490,14 @@ func (w *c12World) one(c *kernel.RunCtx, s *c12Scenario, resps []c12Resp, fname 
 			t.AddOutput(&bt.Output{Satoshis: uint64(500 + s.editIdx), LockingScript: scriptPtr(p2pkh(s.h20(77)))})
 		}
 	}
-	w.fundPhase(c, s, tx, model, fq, s.resps2, fname+"+second-fund")
+	w.fundPhase(c, s, tx, model, fq, s.resps2, fname+"+second-fund", rates)
 }
 
-func (w *c12World) fundPhase(c *kernel.RunCtx, s *c12Scenario, tx, model *bt.Tx, fq *bt.FeeQuote, resps []c12Resp, fname string) {
+func (w *c12World) fundPhase(c *kernel.RunCtx, s *c12Scenario, tx, model *bt.Tx, fq *bt.FeeQuote, resps []c12Resp, fname string, rates [4]int) {
 	token := new(int)
 	ctx, cancel := context.WithCancel(context.WithValue(context.Background(), ctxKey{}, token))
 	defer cancel()
-	sup := &c12Supplier{c: c, s: s, fq: fq, resps: resps, model: model, token: token, cancel: cancel, maxCall: len(resps) + 3}
+	sup := &c12Supplier{c: c, s: s, fq: fq, resps: resps, model: model, token: token, cancel: cancel, maxCall: len(resps) + 3, rates: rates}
 	// snapshot of outputs
 	outsBefore := tx.Outputs
 	ptrs := append([]*bt.Output(nil), tx.Outputs...)
